@@ -95,6 +95,7 @@ def monitor(lines, impl, which):
     # C06, handler clocks: which (process, message type) pairs carry a clock reading (`K:` actions; not also used by `R:`)
     ktips, rtips, skew = set(), set(), {}
     where = {}
+    for_marks = []      # (trace position at the end of a `for` call, end of its window, the call)
     local_ids = set()
     unread = {}         # proc -> local messages sent (trace) and not yet returned by a reading call
     for l in lines:
@@ -237,6 +238,9 @@ def monitor(lines, impl, which):
                 late = [hexf(ff[0]) for kd, ff in entries if kd in ("MR", "TF") and hexf(ff[0]) > want]
                 if late:
                     return f"`{op}` called at time {prev_clock} handled an event at time {late[0]}, after the end of the interval {want}"
+        if which == "C06" and w[0] == "for" and prev_clock is not None:
+            # everything that was due within the window has been handled when the call returns
+            for_marks.append((seq + len(entries), prev_clock + val(w[1]), op))
         prev_clock = t
         if w[0] == "crash" and len(w) == 2 and ret == "ok":
             # the call itself (not only its NodeCrashed entry) marks the crash: everything sent before it is lost
@@ -305,6 +309,8 @@ def monitor(lines, impl, which):
                 if which == "C05":
                     if s["cut"]:
                         return f"message {mid} delivered although the path {s['sn']}->{s['dn']} was disabled when it was sent"
+                    if data != s["data"] and s["sn"] == s["dn"]:
+                        return f"message {mid} between two processes of node {s['sn']} was delivered with payload `{data}`, sent `{s['data']}`: inside a node messages are delivered intact"
                     if data != s["data"]:
                         tip, payload = s["data"].split(",=", 1)
                         if data != f"{tip},={corrupt(payload)}":
@@ -315,6 +321,12 @@ def monitor(lines, impl, which):
                         return f"message {mid} delivered {s['recv']} times (duplication rate at send: {s['ns']['dupl']})"
                     if s["sn"] != s["dn"] and s["ns"]["drop"] >= 1.0:
                         return f"message {mid} delivered although the drop rate was {s['ns']['drop']} when it was sent"
+                if which == "C06":
+                    for mseq, wend, fop in for_marks:
+                        if s["q"] < mseq < seq and et <= wend:
+                            return (f"message {mid} arrived at {et}, within the window of `{fop}` (until {wend}) and was sent before that "
+                                    f"call returned, but was only handled by a later call: step_for_duration did not process the events "
+                                    f"it documents")
                 if which in ("C05", "C06"):
                     lo, hi = (0.0, 0.0) if s["sn"] == s["dn"] else (s["ns"]["min"], s["ns"]["max"])
                     if not (s["t"] + lo <= et <= s["t"] + hi):
@@ -341,6 +353,12 @@ def monitor(lines, impl, which):
                 dead_timers.add(f[1])
             elif kind == "TF":
                 tid, node = f[1], f[3]
+                if which == "C06" and tid in timers:
+                    for mseq, wend, fop in for_marks:
+                        if timers[tid][3] < mseq < seq and et <= wend:
+                            return (f"timer {tid} fell due at {et}, within the window of `{fop}` (until {wend}) and was set before that "
+                                    f"call returned, but was only handled by a later call: step_for_duration did not process the events "
+                                    f"it documents")
                 if which in ("C06", "C07") and tid in timers and timers[tid][0] != et:
                     return f"timer {tid} set at {timers[tid][2]} fired at {et} instead of {timers[tid][0]}"
                 if which == "C07" and tid in dead_timers:
